@@ -93,6 +93,42 @@ theorem pivot_cell (f1 f2 f3 : Nat) (agg : AggFn) (missing : Val) (bs : Option N
     simp only
     rw [← (hcell g2 hmem).2]
 
+theorem mapGroups_congr (f f' : Val × List Row → Except Err Row) :
+    ∀ gs : List (Val × List Row), (∀ g ∈ gs, f g = f' g) → mapGroups f gs = mapGroups f' gs
+  | [], _ => rfl
+  | g :: gs, h => by
+    have h1 := h g (by simp)
+    have h2 := mapGroups_congr f f' gs (fun g' hg' => h g' (by simp [hg']))
+    simp only [mapGroups, h1, h2]
+
+/-- the whole of `pivot`'s data rows: one row per value of `f1` (ascending), whose cell under the column value `v2` is
+    `missing` or the aggregate of exactly the input rows carrying the pair, in input order -/
+theorem pivotRows_spec (f1 f2 f3 : Nat) (f2vals : List Val) (agg : AggFn) (missing : Val) (bs : Option Nat)
+    (hbs : ∀ b, bs = some b → 1 ≤ b) (rows : List Row) :
+    pivotRows f1 f2 f3 f2vals agg missing bs rows =
+      mapGroups (fun g1 => do
+        let cells ← f2vals.mapM (fun v2 =>
+          match (groups (fun r => getCell r f2) g1.2).find? (fun g2 => Val.pyEq g2.1 v2) with
+          | none => Except.ok missing
+          | some g2 => agg.apply ((rows.filter (fun r => Val.eq (getCell r f1) g1.1 && Val.eq (getCell r f2) g2.1)).map
+              (fun r => getCell r f3)))
+        pure (g1.1 :: cells))
+      (groups (fun r => getCell r f1) (sortRows (rowLe [f1, f2] false) bs rows)) := by
+  unfold pivotRows
+  apply mapGroups_congr
+  intro g1 hg1
+  dsimp only
+  obtain ⟨_, _, hb⟩ := pivot_blocks f1 f2 bs hbs rows
+  obtain ⟨_, _, _, hcell⟩ := hb g1 hg1
+  congr 1
+  congr 1
+  funext v2
+  cases hf : List.find? (fun g2 => Val.pyEq g2.1 v2) (groups (fun r => getCell r f2) g1.2) with
+  | none => rfl
+  | some g2 =>
+    dsimp only
+    rw [← (hcell g2 (List.mem_of_find?_eq_some hf)).2]
+
 example : (pivotRows 0 1 2 [.str [112], .str [113]] .sum .none (some 1)
     [[.str [122], .str [113], intVal 2], [.str [120], .str [112], intVal 1], [.str [122], .str [113], intVal 5]]).1.length
     = 2 := by decide +kernel
